@@ -19,7 +19,7 @@ static const char *KN[] = {"NTT", "INTT", "extendPol", "INTT(NTT(x))", "NTT(INTT
 static const int SIZE0 = 99; // ln value meaning "size 0"
 
 struct Cfg {
-    int kind, lm, ln, le; uint64_t ncols, nphase, nblock; int dst, buf, nth; uint64_t dmode, dseed, nphase2, nblock2;
+    int kind, lm, ln, le; uint64_t ncols, nphase, nblock; int dst, buf, nth; uint64_t dmode, dseed, nphase2, nblock2, warm;
     uint64_t n() const { return ln == SIZE0 ? 0 : 1ull << ln; }
     uint64_t next() const { return 1ull << le; }
 };
@@ -29,6 +29,7 @@ static Cfg cfg_of(const std::vector<uint64_t> &v, size_t o = 0)
     c.kind = (int)v[o + 0]; c.lm = (int)v[o + 1]; c.ln = (int)v[o + 2]; c.le = (int)v[o + 3]; c.ncols = v[o + 4]; c.nphase = v[o + 5]; c.nblock = v[o + 6];
     c.dst = (int)v[o + 7]; c.buf = (int)v[o + 8]; c.nth = (int)v[o + 9]; c.dmode = v[o + 10]; c.dseed = v[o + 11];
     c.nphase2 = v.size() > o + 12 ? v[o + 12] : c.nphase; c.nblock2 = v.size() > o + 13 ? v[o + 13] : c.nblock;
+    c.warm = v.size() > o + 14 ? v[o + 14] : 0;
     return c;
 }
 static std::string cfg_str(const Cfg &c)
@@ -39,6 +40,7 @@ static std::string cfg_str(const Cfg &c)
          " dst=" + (c.dst == 0 ? "src" : c.dst == 1 ? "other" : "NULL") + " buffer=" + (c.buf ? "caller" : "NULL") + " nThreads=" + std::to_string(c.nth) +
          " data=" + (c.dmode == 1 ? "basis" : "mixed") + ":" + hx(c.dseed);
     if (c.kind >= K_RT_FI) s += " nphase2=" + std::to_string(c.nphase2) + " nblock2=" + std::to_string(c.nblock2);
+    if (c.warm) s += " warm-up=" + hx(c.warm);
     return s;
 }
 static std::string desc(const Case &c) { return c.prop + " " + cfg_str(cfg_of(c.v)); }
@@ -169,6 +171,14 @@ static bool body_call(const Case &cs, Ctx &ctx)
     Cfg c = cfg_of(cs.v);
     classify(c, ctx);
     NTT_Goldilocks g(1ull << c.lm, c.nth);
+    if (c.warm) {
+        // the object has been used before: one earlier call of another kind / size on the same object (its result is not checked here;
+        // the property under test is about the call that follows)
+        Cfg w = c; w.kind = (int)(c.warm & 3) % 3; w.dst = 0; w.buf = 0; w.nphase = 3; w.nblock = 1; w.ncols = 1 + (c.warm >> 2) % 2; w.dmode = 0;
+        w.ln = (int)((c.warm >> 4) % (uint64_t)(c.lm + 1)); w.le = w.kind == K_EXT ? w.ln + (int)((c.warm >> 8) % 2) : w.ln;
+        run_call(g, w, false);
+        ctx.nt(w.kind == K_EXT ? "cfg:object-used-before(extendPol)" : "cfg:object-used-before(NTT/INTT)");
+    }
     CallResult r = run_call(g, c, true);
     if (!r.ok) return ctx.fail(cfg_str(c) + " :: " + r.why);
     return true;
@@ -245,7 +255,8 @@ static rc::Gen<std::vector<uint64_t>> gen_call(int kindsel /* -1 any of 0..4, el
         uint64_t dseed = *g::uni64();
         uint64_t nphase2 = *rc::gen::elementOf(std::vector<uint64_t>(PHASES, PHASES + 12));
         uint64_t nblock2 = *rc::gen::elementOf(std::vector<uint64_t>(BLOCKS, BLOCKS + 9));
-        return std::vector<uint64_t>{(uint64_t)kind, (uint64_t)lm, (uint64_t)ln, (uint64_t)le, ncols, nphase, nblock, (uint64_t)dst, (uint64_t)buf, (uint64_t)nth, dmode, dseed, nphase2, nblock2};
+        uint64_t warm = *rc::gen::weightedOneOf<uint64_t>({{3, rc::gen::just<uint64_t>(0)}, {1, g::range(1, 0xFFF)}});
+        return std::vector<uint64_t>{(uint64_t)kind, (uint64_t)lm, (uint64_t)ln, (uint64_t)le, ncols, nphase, nblock, (uint64_t)dst, (uint64_t)buf, (uint64_t)nth, dmode, dseed, nphase2, nblock2, warm};
     });
 }
 static rc::Gen<std::vector<uint64_t>> gen_history()
@@ -300,7 +311,8 @@ static std::vector<std::vector<uint64_t>> &enum_space(int kind)
                                         int lnn = ln < 0 ? SIZE0 : ln;
                                         uint64_t seed = pbt::mix(ctr, lm * 1000 + ln * 10 + kind);
                                         uint64_t dmode = (ctr % 4 == 3) ? 1 : 0;
-                                        sp.push_back({(uint64_t)kind, (uint64_t)lm, (uint64_t)lnn, (uint64_t)(ln < 0 ? 0 : ln + de), ncols, nphase, nblock, (uint64_t)dst, (uint64_t)buf, (uint64_t)nth, dmode, seed, PHASES[(ctr * 7) % 12], blocks[(ctr * 3) % blocks.size()]});
+                                        sp.push_back({(uint64_t)kind, (uint64_t)lm, (uint64_t)lnn, (uint64_t)(ln < 0 ? 0 : ln + de), ncols, nphase, nblock, (uint64_t)dst, (uint64_t)buf, (uint64_t)nth, dmode, seed, PHASES[(ctr * 7) % 12], blocks[(ctr * 3) % blocks.size()],
+                                                      (ctr % 5 == 4) ? 1 + (seed & 0xFFF) : 0});
                                         ctr++;
                                     }
                                 }
